@@ -228,6 +228,15 @@ class Geometry(DaeObject):
         vnode = meshnode.find(tag('vertices'))
         sources = [src for src in self.sourceById.values()
                    if isinstance(src, source.Source)]
+        if vnode is None:
+            # loaded from a mesh without <vertices> (its primitives name the position
+            # source themselves): add the element the constructor would have made
+            named = [prim.sources['VERTEX'][0][2][1:] for prim in self.primitives if prim.sources.get('VERTEX')] + \
+                [src.id for src in sources if src.id is not None]
+            if named:
+                vnode = E.vertices(E.input(semantic='POSITION', source='#%s' % named[0]), id=named[0] + '-vertices')
+                last = [i for i, child in enumerate(meshnode) if child.tag == tag('source')]
+                meshnode.insert(last[-1] + 1 if last else 0, vnode)
         for src in sources:
             src.save()
         _syncChildren(meshnode, [src.xmlnode for src in sources],
